@@ -217,6 +217,9 @@ func (acc *Accumulator) Remove(sk *gabikeys.PrivateKey, e *big.Int, parent *Even
 // UnmarshalVerify verifies the signature and unmarshals the accumulator
 // (c.f. Accumulator.Sign()).
 func (s *SignedAccumulator) UnmarshalVerify(pk *gabikeys.PublicKey) (*Accumulator, error) {
+	if s == nil {
+		return nil, errors.New("missing signed accumulator")
+	}
 	if s.Accumulator != nil {
 		return s.Accumulator, nil
 	}
@@ -411,6 +414,15 @@ func (el *EventList) compress() *compressedEventList {
 	return &c
 }
 
+func (c *compressedEventList) validate() error {
+	for _, e := range c.E {
+		if e == nil {
+			return errors.New("event list contains an empty revocation attribute")
+		}
+	}
+	return nil
+}
+
 func (el *EventList) uncompress(c *compressedEventList) {
 	if len(c.E) != 0 {
 		el.Events = make([]*Event, len(c.E))
@@ -448,6 +460,9 @@ func (el *EventList) UnmarshalJSON(bts []byte) error {
 	if err != nil {
 		return err
 	}
+	if err = c.validate(); err != nil {
+		return err
+	}
 	el.uncompress(&c)
 	return nil
 }
@@ -460,6 +475,9 @@ func (el *EventList) UnmarshalCBOR(bts []byte) error {
 	var c compressedEventList
 	err := cbor.Unmarshal(bts, &c)
 	if err != nil {
+		return err
+	}
+	if err = c.validate(); err != nil {
 		return err
 	}
 	el.uncompress(&c)
@@ -480,6 +498,17 @@ func (el *EventList) Verify(acc *Accumulator) error {
 			return el.validationErr
 		}
 		return nil
+	}
+	for _, event := range events {
+		if event == nil || event.E == nil {
+			return errors.New("update chain contains an incomplete event")
+		}
+	}
+	// The parent hash of the first event is not compared with anything; it must at least be a
+	// well-formed hash, since otherwise bytes can be moved between it and the event's revocation
+	// attribute without changing the event's hash.
+	if _, err = events[0].ParentHash.Algorithm(); err != nil {
+		return errors.WrapPrefix(err, "first event of update chain has malformed parent hash", 0)
 	}
 	if err = events[count-1].hashEquals(acc.EventHash); err != nil {
 		return errors.WrapPrefix(err, "update chain has wrong hash", 0)
